@@ -1,0 +1,10 @@
+//go:build verif
+
+package linkedlistqueue
+
+import "github.com/emirpasic/gods/v2/lists/singlylinkedlist"
+
+// VerifInner returns the backing linked list.
+func (queue *Queue[T]) VerifInner() *singlylinkedlist.List[T] {
+	return queue.list
+}
